@@ -259,6 +259,7 @@ PROPS = {
                       "object kind tears down only at zero (8 kinds); replacement sites release the old referent.",
         "level_note": "vtable slots are resolved from static initialisers; counted kinds are those whose addref implementation calls the raise primitive",
         "rules": [
+            {"run": rules_lin.run_linfini, "floor": 4},
             {"run": rules_ref.run_raisefail, "floor": 1},
             {"run": rules_ref.run_lowerfail, "floor": 1},
             {"run": rules_ref.run_reforder, "floor": 1, "use_anchor_files": True},
@@ -305,6 +306,7 @@ PROPS = {
                       "the one place where a length parameter switches meaning cannot drop elements unfinalised.",
         "level_note": "destructor-only traits of non-copyable C++ unique arrays are accepted (noted in evidence)",
         "rules": [
+            {"run": rules_lin.run_linfini, "floor": 4},
             {"run": rules_traits.run_ctorfail, "floor": 2},
             {"run": rules_traits.run_finimatch, "floor": 1},
             {"run": rules_traits.run_ctorcover, "floor": 2},
